@@ -114,19 +114,24 @@ func newRuleguardChecker(info *linter.CheckerInfo, ctx *linter.CheckerContext) (
 		ctx:        ctx,
 		debugGroup: info.Params.String("debug"),
 	}
-	rulesFlag := info.Params.String("rules")
-	if rulesFlag == "" {
-		return c, nil
-	}
+	// The failure policy is validated even when there are no rules to load:
+	// an unknown value is a configuration error, not something to ignore.
 	failOn := info.Params.String("failOn")
-	if failOn == "" {
-		if info.Params.Bool("failOnError") {
+	if info.Params.Bool("failOnError") {
+		// The legacy flag means "all", whatever else is listed.
+		if failOn == "" {
 			failOn = "all"
+		} else {
+			failOn += ",all"
 		}
 	}
 	h, err := newErrorHandler(failOn)
 	if err != nil {
 		return nil, err
+	}
+	rulesFlag := info.Params.String("rules")
+	if rulesFlag == "" {
+		return c, nil
 	}
 
 	engine := ruleguard.NewEngine()
